@@ -45,6 +45,7 @@ type Query {
   odd: Thing
   stamps: [Time]
   matrix: [[Int]]
+  codes: [Int!]
   stash(v: Vault, key: String!): String
   levels: [Size]
   vari(xs: [String]): String
@@ -172,19 +173,20 @@ const (
 	FaultOwnPath    = "ggql_error_with_own_path"       // a *ggql.Error handed on from elsewhere: wraps ErrResolve, has a Path, Line and Column of its own
 	FaultTypedNil   = "typed_nil_with_error"           // the resolver returns its declared nil map / nil pointer together with the error
 	FaultOverGroup  = "ggql_error_over_upstream_group" // ONE *ggql.Error with extensions whose Base chain holds a ggql.Errors (a gateway keeping the upstream list): one entry
+	FaultWrapPlain  = "wrapped_plain_error"            // fmt.Errorf("...: %w", cause)-style: a plain error that wraps another plain error, no ggql error anywhere in the chain
 	FaultPanic      = "panic"                          // the resolver panics (the caller of ggql recovers): histories only
 	FaultBadList    = "bad_list_elements"              // a [scalar] field returns []interface{}{ok, bad, ok, bad}: two coercion failures in one list
 )
 
 // IsScalarListField tells whether a zoo field is a list of bare scalars.
 func IsScalarListField(field string) bool {
-	return field == "tags" || field == "nums" || field == "matrix"
+	return field == "tags" || field == "nums" || field == "matrix" || field == "codes"
 }
 
 // BadListFor is the value a scalar-list field returns under FaultBadList and
 // the data expected in the response for it.
 func BadListFor(field string) (value []interface{}, expect []interface{}) {
-	if field == "nums" {
+	if field == "nums" || field == "codes" {
 		return []interface{}{10, badLeaf{}, 12, badLeaf{}}, []interface{}{10, nil, 12, nil}
 	}
 	if field == "matrix" {
@@ -252,7 +254,7 @@ var ErrInjectedResolve = errors.New("injected resolver failure")
 func IsLeafField(typ, field string) bool {
 	for _, f := range zooTypes[typ] {
 		if f.name == field {
-			return f.typ == "" && field != "tags" && field != "nums" && field != "matrix"
+			return f.typ == "" && field != "tags" && field != "nums" && field != "matrix" && field != "codes"
 		}
 	}
 	return false
@@ -351,6 +353,8 @@ func (tr *Tracker) enter(typ, field string, args map[string]interface{}, path st
 		return kind, &wrapErr{msg: "while resolving " + field, err: ggql.Errors{errors.New("injected member 1 " + tag), errors.New("injected member 2 " + tag)}}
 	case FaultWrapGGQL:
 		return kind, &wrapErr{msg: "while resolving " + field + " " + tag, err: &ggql.Error{Base: errors.New("injected ggql failure " + tag), Extensions: map[string]interface{}{"code": "E" + strconv.Itoa(tr.N)}}}
+	case FaultWrapPlain:
+		return kind, &wrapErr{msg: "while resolving " + field + " " + tag, err: errors.New("backend said no")}
 	case FaultOverGroup:
 		return kind, &ggql.Error{Base: &wrapErr{msg: "gateway " + tag, err: ggql.Errors{errors.New("upstream said a"), errors.New("upstream said b")}},
 			Extensions: map[string]interface{}{"code": "E" + strconv.Itoa(tr.N)}}
@@ -401,6 +405,8 @@ type Query struct {
 	// Matrix is a list of lists of scalars, handed out as []interface{} of
 	// []interface{}.
 	Matrix []interface{}
+	// Codes is a list whose members are declared non-null.
+	Codes []interface{}
 	Stamps []interface{}
 	Levels []interface{}
 	// Chief is served by a second Go struct for the GraphQL type Keeper (other
@@ -760,6 +766,7 @@ func GenZoo(t *tape.Tape) *Query {
 	q.LabelAlso = &Label{T: "at" + q.Title, A: "aa" + q.Title}
 	q.Odd = map[string]interface{}{"name": "odd"}
 	q.Matrix = []interface{}{[]interface{}{1, 2, 3}, []interface{}{4, 5}}
+	q.Codes = []interface{}{7, 8, 9, 10}
 	q.Stamps = []interface{}{time.Unix(1600000000, 0).UTC(), time.Unix(1600000500, 0).In(time.FixedZone("east", 3600)), nil}
 	q.Levels = []interface{}{ggql.Symbol("BIG"), "SMALL", ggql.Symbol("SMALL")}
 	q.Chief = &KeeperAlt{Rank: q.Boss.Rank, Age: q.Boss.Age + 1, Note: "alt", Name: "chief-" + q.Boss.Name}
@@ -955,6 +962,8 @@ func zooField(q *Query, obj interface{}, name string, args map[string]interface{
 			return o.Odd, nil
 		case "matrix":
 			return o.Matrix, nil
+		case "codes":
+			return o.Codes, nil
 		case "stash":
 			return "stash:" + CanonLite(map[string]interface{}(args)), nil
 		case "stamps":
